@@ -515,9 +515,121 @@ func c17LateRegistration(c *core.Ctx, idx int) {
 	rec.NonTrivial(core.Hash64("late", part.String(), tag, fmt.Sprint(idx)))
 }
 
+// c17BuiltinTags: one instance registers codecs under new tag names for built-in types (the types
+// the default codecs are for). Every other type, every other instance - made before or after - and
+// the package-level functions still encode every built-in type as documented, and none of them
+// knows the new tag names (round 12: k17).
+func c17BuiltinTags(c *core.Ctx, idx int) {
+	rec := c.Rec
+	r := c.Rand(idx)
+	T := reflect.TypeOf
+	builtins := []reflect.Type{T(false), T(float64(0)), T(float32(0)), T(int(0)), T(int8(0)), T(int16(0)), T(int32(0)), T(int64(0)), T(uint(0)), T(uint8(0)), T(uint16(0)), T(uint32(0)), T(uint64(0)), T([]byte(nil)), T(""), model.TimeT}
+	var fs []reflect.StructField
+	for i, t := range builtins {
+		fs = append(fs, reflect.StructField{Name: fmt.Sprintf("F%d", i), Type: t, Tag: reflect.StructTag(fmt.Sprintf(`plenc:"%d"`, i+1))})
+		fs = append(fs, reflect.StructField{Name: fmt.Sprintf("S%d", i), Type: reflect.SliceOf(t), Tag: reflect.StructTag(fmt.Sprintf(`plenc:"%d"`, i+40))})
+	}
+	all := reflect.StructOf(fs)
+	cfgs := instCfgs()
+	cfgA, cfgB := cfgs[r.IntN(4)], cfgs[r.IntN(4)]
+	a, before := instNew(cfgA), instNew(cfgB)
+	if r.IntN(2) == 0 {
+		// the other instance has used the types already
+		v := reflect.New(all)
+		fillPresent(v.Elem(), r)
+		marshal(before, nil, v.Interface())
+	}
+	tags := []string{"cents", "x1", "raw", "Flat", "f"}
+	type reg struct {
+		t   reflect.Type
+		tag string
+	}
+	var regs []reg
+	for i, n := 0, 1+r.IntN(4); i < n; i++ {
+		rg := reg{builtins[r.IntN(len(builtins))], tags[r.IntN(len(tags))]}
+		a.RegisterCodecWithTag(rg.t, rg.tag, markerCodec{id: byte(1 + i), typ: rg.t})
+		regs = append(regs, rg)
+	}
+	after := instNew(cfgB)
+	type user struct {
+		name string
+		cfg  model.Cfg
+		enc  func(v any) ([]byte, error, string)
+		with func(t reflect.Type, tag string) error
+	}
+	inst := func(name string, cfg model.Cfg, p *plenc.Plenc) user {
+		return user{name, cfg, func(v any) ([]byte, error, string) { return marshal(p, nil, v) }, func(t reflect.Type, tag string) error {
+			_, err := p.CodecForTypeWithTag(t, tag)
+			return err
+		}}
+	}
+	users := []user{inst("the registering instance", cfgA, a), inst("an instance made before the registration", cfgB, before), inst("an instance made after the registration", cfgB, after),
+		{"the package-level functions", model.Cfg{}, func(v any) (out []byte, err error, pn string) {
+			pn = core.Guard(func() { out, err = plenc.Marshal(nil, v) })
+			return
+		}, func(t reflect.Type, tag string) error {
+			_, err := plenc.CodecForTypeWithTag(t, tag)
+			return err
+		}}}
+	desc := fmt.Sprintf("after RegisterCodecWithTag on one instance for %v", regs)
+	for _, u := range users {
+		v := reflect.New(all)
+		fillPresent(v.Elem(), r)
+		got, err, pn := u.enc(v.Interface())
+		want := u.cfg.Encode(v.Elem())
+		rec.Eval(1)
+		if err != nil || pn != "" || !bytes.Equal(got, want) {
+			rec.Violation("instance-leak", fmt.Sprintf("%s: %s does not encode the built-in types as documented (%v %s)\n  got  %s\n  want %s", desc, u.name, err, trunc1(pn), hexHead(got), hexHead(want)), nil)
+			return
+		}
+		if u.name == "the registering instance" {
+			continue
+		}
+		for _, rg := range regs {
+			for _, t := range builtins {
+				if t.Kind() == reflect.Slice {
+					continue // (on a slice type an unknown tag option is ignored, not refused)
+				}
+				var err error
+				pn := core.Guard(func() { err = u.with(t, rg.tag) })
+				rec.Eval(1)
+				if pn != "" || err == nil {
+					rec.Violation("instance-leak", fmt.Sprintf("%s: %s has a codec for (%s, %q), which nobody registered there (%s)", desc, u.name, t, rg.tag, trunc1(pn)), nil)
+					return
+				}
+			}
+		}
+	}
+	// on the registering instance the registration is for its key alone
+	for _, rg := range regs {
+		for _, t := range builtins {
+			known := false
+			for _, o := range regs {
+				known = known || (o.t == t && o.tag == rg.tag)
+			}
+			if known || t.Kind() == reflect.Slice {
+				continue
+			}
+			var err error
+			pn := core.Guard(func() { _, err = a.CodecForTypeWithTag(t, rg.tag) })
+			rec.Eval(1)
+			if pn != "" || err == nil {
+				rec.Violation("registration-ignored", fmt.Sprintf("%s: the registering instance has a codec for (%s, %q) too (%s)", desc, t, rg.tag, trunc1(pn)), nil)
+				return
+			}
+		}
+	}
+	rec.Count("builtin_tag_registrations", len(regs))
+	rec.NonTrivial(core.Hash64("builtin-tags", fmt.Sprint(idx)))
+}
+
 func c17Case(c *core.Ctx, idx int) {
 	if c.Lane == "firstuse" {
 		c17FirstUse(c, idx)
+		return
+	}
+	if idx%9 == 4 {
+		c17BuiltinTags(c, idx)
 		return
 	}
 	if idx%7 == 3 {
@@ -835,7 +947,7 @@ func init() {
 	core.Register(&core.Prop{
 		ID:        "C17",
 		Technique: "marker-codec monitor: several Plenc instances with random options and random (type, tag) registrations of harness marker codecs used in interleaved order (race lane: concurrently); every output compared byte for byte with the model parameterised by that instance only; package-level functions compared with a default configuration",
-		Rule: "every 7th trial: definitions around a part without a codec (array, complex, func; a struct under an unregistered tag name) are turned away, then a codec is registered for the part: every definition, those that failed included, must use it from then on, and an instance without the registration still turns them away. every 11th trial: 1500 rounds of RegisterCodecWithTag(T, fresh tag) against the first CodecForTypeWithTag of that key from another goroutine with a swept delay, the key must give the registered codec afterwards. Every 13th trial: codecs registered under a tag name for two types that refer to themselves under that tag name (directly, through a nested struct) and a non-recursive holder, first uses in every order, exact bytes, an instance without the registrations beside it. Otherwise one trial = 2-6 instances, each with random ProtoCompatibleArrays/Time and a random subset of registrations {(Marked,\"\"),(Marked,m1),(Marked,m2),(MarkStr,\"\"),(MarkStr,m1)} of marker codecs that write a constant identifying the registration; the marked struct type and the named string type are placed as value, tagged value, pointer target, slice element, map key, map value, interned field, and the same slice/map/int types again under the built-in proto/flat options, in shuffled declaration order; failing builds interleaved on random instances; 6 x instances marshal/unmarshal jobs in random instance order; " +
+		Rule: "every 9th trial: codecs registered under new tag names for built-in types on one instance; the registering instance, instances made before and after, and the package-level functions still encode every built-in type (plain and in slices) as documented, and only the registered keys answer to the tag names. every 7th trial: definitions around a part without a codec (array, complex, func; a struct under an unregistered tag name) are turned away, then a codec is registered for the part: every definition, those that failed included, must use it from then on, and an instance without the registration still turns them away. every 11th trial: 1500 rounds of RegisterCodecWithTag(T, fresh tag) against the first CodecForTypeWithTag of that key from another goroutine with a swept delay, the key must give the registered codec afterwards. Every 13th trial: codecs registered under a tag name for two types that refer to themselves under that tag name (directly, through a nested struct) and a non-recursive holder, first uses in every order, exact bytes, an instance without the registrations beside it. Otherwise one trial = 2-6 instances, each with random ProtoCompatibleArrays/Time and a random subset of registrations {(Marked,\"\"),(Marked,m1),(Marked,m2),(MarkStr,\"\"),(MarkStr,m1)} of marker codecs that write a constant identifying the registration; the marked struct type and the named string type are placed as value, tagged value, pointer target, slice element, map key, map value, interned field, and the same slice/map/int types again under the built-in proto/flat options, in shuffled declaration order; failing builds interleaved on random instances; 6 x instances marshal/unmarshal jobs in random instance order; " +
 			"then the package-level Marshal/Unmarshal are compared with a default configuration. Lane firstuse: 16 fresh processes whose first package-level call is a registration for a key the defaults also fill. At the end of each shard a package-level registration is made and must be visible to the package-level functions only. distinct = distinct trials (sets of instance configurations)",
 		Assume: []string{"model.Encode parameterised by one instance's options and registrations"},
 		Plan: func(tier string) []core.Lane {
